@@ -179,6 +179,7 @@ func generate(r *hxlib.Run, emit func(hxlib.Case)) {
 	g := &gen{r: r, rng: r.Rng, emit: emit}
 	g.regressions()
 	g.tableAuthenticator()
+	g.randomPerms()
 	g.tableKeys()
 	g.tableCookies()
 	g.tableDevBridge()
@@ -188,10 +189,10 @@ func generate(r *hxlib.Run, emit func(hxlib.Case)) {
 	g.bridgeDB()
 	g.tcp()
 	g.expiredKeyStorm()
-	for i := 0; i < r.Budget(700, 20000); i++ {
+	for i := 0; i < r.Budget(5000, 80000); i++ {
 		g.history()
 	}
-	for i := 0; i < r.Budget(400, 12000); i++ {
+	for i := 0; i < r.Budget(2500, 40000); i++ {
 		g.headers()
 	}
 }
@@ -245,6 +246,36 @@ func (g *gen) tableAuthenticator() {
 			}
 			g.out("table-authenticator-modes", lines)
 		}
+	}
+}
+
+// randomPerms: declared and granted permissions drawn from the whole int8 range (uniform in the
+// magnitude class first: around the scale, small, anywhere), all credential-independent routes.
+func (g *gen) randomPerms() {
+	draw := func() int {
+		switch g.rng.Intn(4) {
+		case 0:
+			return g.rng.Intn(9) - 3 // -3 .. 5
+		case 1:
+			return g.rng.Intn(33) - 16
+		case 2:
+			return g.pickInt([]int{-128, -127, -126, 126, 127, 4, 5, 1, 0})
+		}
+		return g.rng.Intn(256) - 128
+	}
+	for i := 0; i < g.r.Budget(150, 3000); i++ {
+		lines := []string{"authset 1"}
+		for k := 0; k < 60; k++ {
+			m := methodTable[g.rng.Intn(len(methodTable))]
+			t, v := dynRoute(draw(), draw())
+			q := reqSpec{method: m.m, acrm: m.acrm, target: t, rview: v, au: fmt.Sprintf("T:%d:%d", draw(), draw())}
+			if g.rng.Intn(3) == 0 {
+				q.cookie = sessCookie(g.rng.Intn(k + 1))
+				q.au = "N"
+			}
+			lines = append(lines, g.req(q))
+		}
+		g.out("random-int8-perms", lines)
 	}
 }
 
@@ -491,7 +522,7 @@ var permWords = []string{"", "anyone", "user", "admin", "Anyone", "USER", "Admin
 
 // keyConfigs: the parsing of the core/apiKeys option and what the resulting keys grant.
 func (g *gen) keyConfigs() {
-	n := g.r.Budget(150, 3000)
+	n := g.r.Budget(800, 12000)
 	for i := 0; i < n; i++ {
 		lines := []string{"authset 1", "adv 1000"}
 		var creds []string
@@ -559,9 +590,9 @@ func (g *gen) keyConfigs() {
 // caller of the first config change (a lock-order deadlock between two config.SaveConfig calls wedged
 // the config system and, through apiKeysLock, every request presenting a key).
 func (g *gen) expiredKeyStorm() {
-	n := g.r.Budget(40, 400)
+	n := g.r.Budget(60, 1000)
 	for i := 0; i < n; i++ {
-		lines := []string{"authset 1", "adv 1000"}
+		lines := []string{"authset 1", "adv 1000", "storm 1"}
 		t, v := dynRoute(2, 2)
 		for k := 0; k < 10; k++ {
 			name := fmt.Sprintf("storm-key-%d-%d", i, k)
@@ -610,7 +641,7 @@ func cleanHeader(s string) bool {
 // tcp: the same kinds of requests over a real TCP connection to an http.Server with the api handler.
 func (g *gen) tcp() {
 	entries, names := stdKeys()
-	n := g.r.Budget(12, 200)
+	n := g.r.Budget(30, 600)
 	for i := 0; i < n; i++ {
 		lines := []string{"authset 1", "keys " + strings.Join(entries, " ")}
 		if g.rng.Intn(4) == 0 {
